@@ -121,6 +121,11 @@ def cases(rng, tier):
     for alg in ALGS:
         for enc in (ENCS if tier != "quick" else ["A128CBC-HS256", "A256GCM", "A192CBC-HS384"]):
             out.append({"t": "struct", "alg": alg, "enc": enc, "zip": "DEF" if len(out) % 2 else None, "crv": CURVES[len(out) % 5]})
+    # structural model of the JSON deserializer (recipient choice, AAD), fed with the independent implementation's verdicts
+    for alg in ("A128KW", "RSA1_5", "RSA-OAEP", "A128GCMKW", "ECDH-ES+A128KW", "A256KW"):
+        for nrec in (1, 2, 3):
+            for aad in (None, b64e(b"aad!")):
+                out.append({"t": "jstruct", "alg": alg, "enc": "A128GCM" if nrec % 2 else "A128CBC-HS256", "nrec": nrec, "aad": aad, "crv": CURVES[len(out) % 5]})
     # structural vectors for the model: CBC-HS tag, Concat KDF, AAD
     for enc in ENCS[:3]:
         for aad_len in (0, 1, 13, 64, 300):
@@ -424,6 +429,84 @@ def struct_model_lines(c):
     return lines
 
 
+def jstruct_variants(c):
+    """(object, decrypting key index) pairs: the library's message and altered versions, read by each recipient"""
+    alg, enc, nrec = c["alg"], c["enc"], c["nrec"]
+    ks = [key_for(alg, enc, c["crv"]), key_for(alg, enc, c["crv"], other=True), third_key(alg, enc, c["crv"])][:nrec]
+    obj = c.get("_obj")
+    if obj is None:
+        header_obj = {"protected": {"alg": alg, "enc": enc}, "recipients": [{"header": {"kid": f"r{i}"}} for i in range(nrec)]}
+        if c["aad"] is not None:
+            header_obj["aad"] = b64d(c["aad"])
+        obj = json.loads(json.dumps(_jwe().serialize_json(header_obj, b"json structural payload", [k[0] for k in ks])))
+        c["_obj"] = obj
+    variants = []
+    for who in range(nrec):
+        variants.append((copy.deepcopy(obj), who, None))
+        o = copy.deepcopy(obj); o["recipients"].reverse(); variants.append((o, who, None))
+        o = copy.deepcopy(obj); o["recipients"][0]["encrypted_key"] = b64e(b"\x01" * 24); variants.append((o, who, None))
+        o = copy.deepcopy(obj); o["recipients"] = o["recipients"][who:who + 1]; variants.append((o, who, None))
+        o = copy.deepcopy(obj); o["recipients"] = [r for i, r in enumerate(o["recipients"]) if i != who]
+        if o["recipients"]:
+            variants.append((o, who, None))
+        o = copy.deepcopy(obj); o["protected"] = o["protected"][:-1] + ("A" if o["protected"][-1] != "A" else "B"); variants.append((o, who, None))
+        o = copy.deepcopy(obj)
+        if "aad" in o: del o["aad"]
+        else: o["aad"] = b64e(b"x")
+        variants.append((o, who, None))
+        variants.append((copy.deepcopy(obj), who, f"r{who}"))            # key carries the kid of its own entry
+        variants.append((copy.deepcopy(obj), who, f"r{(who + 1) % nrec}"))   # key carries the kid of another entry
+    return variants, ks
+
+
+def run_jstruct(c):
+    variants, ks = jstruct_variants(c)
+    jwe = _jwe()
+    outs = []
+    for o, who, kid in variants:
+        key = ks[who][1] if kid is None else (kid, ks[who][1])
+        r = _try(lambda: jwe.deserialize_json(copy.deepcopy(o), key))
+        outs.append({"r": "ok", "payload": r["ok"]["payload"].hex()} if "ok" in r else {"r": "error"})
+    return {"outs": outs}
+
+
+def jstruct_model_lines(c):
+    variants, ks = jstruct_variants(c)
+    lines = []
+    for o, who, kid in variants:
+        ps = o.get("protected", "")
+        try:
+            protected = json.loads(b64d(ps)) if ps else {}
+            assert isinstance(protected, dict)
+        except Exception:
+            protected = None
+        line = {"op": "json_struct", "protected": ps, "aad": o.get("aad"), "recipients": [], "unwrap": [], "dec": [], "key_kid": kid}
+        if protected is None:
+            lines.append(dict(line, recipients=[]))        # the header does not parse: no recipient can be served
+            continue
+        aad = ps.encode("ascii") + ((b"." + o["aad"].encode()) if "aad" in o else b"")
+        iv, ct, tag = b64d(o["iv"]), b64d(o["ciphertext"]), b64d(o["tag"])
+        seen = set()
+        for rec in o["recipients"]:
+            ek = b64d(rec["encrypted_key"])
+            m = dict(protected, **(o.get("unprotected") or {})); m.update(rec.get("header") or {})
+            line["recipients"].append({"kid": (rec.get("header") or {}).get("kid"), "ek": ek.hex()})
+            try:
+                cek = R.unwrap(m["alg"], m["enc"], ks[who][3], ek, m)
+            except Exception:
+                cek = None
+            line["unwrap"].append([ek.hex(), None if cek is None else cek.hex()])
+            if cek is not None and cek not in seen:
+                seen.add(cek)
+                try:
+                    pt = R.content_decrypt(m["enc"], cek, iv, aad, ct, tag)
+                except Exception:
+                    pt = None
+                line["dec"].append([cek.hex(), aad.hex(), None if pt is None else pt.hex()])
+        lines.append(line)
+    return lines
+
+
 def run_cbc_tag(c):
     from authlib.jose import JsonWebEncryption
     enc = JsonWebEncryption.ENC_REGISTRY[c["enc"]]
@@ -442,12 +525,14 @@ def run_kdf(c):
 
 
 def impl(c):
-    return {"rt_compact": run_rt_compact, "tamper_compact": run_tamper_compact, "json": run_json, "cbc_tag": run_cbc_tag, "kdf": run_kdf, "rsa15_fallback": run_rsa15_fallback, "struct": run_struct}[c["t"]](c)
+    return {"rt_compact": run_rt_compact, "tamper_compact": run_tamper_compact, "json": run_json, "cbc_tag": run_cbc_tag, "kdf": run_kdf, "rsa15_fallback": run_rsa15_fallback, "struct": run_struct, "jstruct": run_jstruct}[c["t"]](c)
 
 
 def model_line(c):
     if c["t"] == "struct":
         return {"op": "multi", "lines": struct_model_lines(c)}
+    if c["t"] == "jstruct":
+        return {"op": "multi", "lines": jstruct_model_lines(c)}
     if c["t"] == "cbc_tag":
         return {"op": "cbc_tag", "enc": c["enc"], "key": b64d(c["key"]).hex(), "aad": b64d(c["aad"]).hex(), "iv": b64d(c["iv"]).hex(), "ct": b64d(c["ct"]).hex()}
     if c["t"] == "kdf":
